@@ -17,7 +17,7 @@ RULE = ("catalogues, each exhaustive: scalar widths 0..65,128 in bits and byte s
         "reserved words and near misses as field/type/enum-value names. Non-trivial = row whose verdict flips against its "
         "neighbour row; distinct by source text.")
 ASSUMPTIONS = ["rule table in checks/c14.py transcribed from doc/language-reference.md",
-               "not compared (undocumented): array declared length vs field size, negative constant offsets, byte_order on "
+               "not compared (undocumented): array declared length vs field size, negative array lengths, byte_order on "
                "struct-typed fields, $default byte_order on a bits type"]
 TIMEOUT = 1800
 
@@ -53,6 +53,12 @@ def rows_scalar():
         for neg in ("-2", "0-1", "- 1"):
             out.append(("scalar-negative-size %s %s" % (T, neg), "bits Bb:\n  0 [+%s]  %s  x\n  let y = x + 1\n" % (neg, T), False))
             out.append(("scalar-negative-size-bytes %s %s" % (T, neg), LE + "struct Ss:\n  0 [+%s]  %s  x\n  let y = x\n" % (neg, T), False))
+    for start in ("-1", "0-4", "- 1", "0", "1"):
+        out.append(("constant-start %s" % start, LE + "struct Ss:\n  %s [+2]  UInt  x\n" % start, not start.replace(" ", "").startswith(("-", "0-"))))
+    # a field sized by a value that has no bounds of its own (its own size is not fixed)
+    out.append(("size-from-unbounded", LE + "struct Ss:\n  0 [+1]  UInt  n\n  1 [+n]  UInt  x\n  2 [+x]  UInt  y\n", False))
+    out.append(("upper-bound-of-unbounded", LE + "struct Ss:\n  0 [+1]  UInt  n\n  1 [+n]  UInt  x\n  let z = $upper_bound(x) == 3\n", False))
+    out.append(("lower-bound-of-unbounded-as-start", LE + "struct Ss:\n  0 [+1]  UInt  n\n  1 [+n]  UInt  x\n  $lower_bound(x) [+1]  UInt  q\n", False))
     for T in ("UInt", "Int"):
         for w in (0, 1, 8, 63, 64, 65):
             for use in ("", "  let q = p\n  let r = $max(q, 3)\n", "  if p == 0:\n    1 [+1]  UInt  z\n"):
@@ -164,6 +170,13 @@ def rows_arrays():
     for mb, w in ((8, 8), (8, 16), (16, 16), (16, 32)):
         out.append(("array-elem enum mb=%d w=%d" % (mb, w), LE + "enum Ee:\n  [maximum_bits: %d]\n  AA = 1\nstruct Ss:\n  0 [+%d]  Ee:%d[2]  a\n" % (
             mb, 2 * w // 8, w), w <= mb))
+    # elements must have a size: zero-byte structures and empty inner dimensions cannot be array elements
+    empty = LE + "struct Empty:\n  let k = 1\n"
+    out.append(("array-of-empty-struct", empty + "struct Ss:\n  0 [+0]  Empty[3]  a\n", False))
+    out.append(("array-of-empty-struct-auto", empty + "struct Ss:\n  0 [+0]  Empty[]  a\n", False))
+    out.append(("empty-struct-plain", empty + "struct Ss:\n  0 [+0]  Empty  a\n", True))
+    for inner in (-1, 0, 1):
+        out.append(("array-inner-dimension %d" % inner, LE + "struct Ss:\n  0 [+%d]  UInt:8[%d][4]  a\n" % (max(inner, 0) * 4, inner), inner >= 1))
     out.append(("array-of-flags-in-bits", "bits Bb:\n  0 [+8]  Flag[8]  a\n", True))
     out.append(("array-of-enum", LE + "enum Ee:\n  [maximum_bits: 8]\n  AA = 1\nstruct Ss:\n  0 [+4]  Ee:8[4]  a\n", True))
     return out
@@ -205,6 +218,25 @@ def rows_byte_order():
                     eff = attr or dm or "Null"
                     out.append(("byte-order anon n=%d used=%d attr=%s module=%s" % (n, used, attr, dm), "\n".join(lines) + "\n",
                                 eff in ("LittleEndian", "BigEndian") or n == 1))
+    # arrays: the elements are what is read, so a one-byte field does not make a multi-byte element order-free
+    for n in (1, 2, 4):
+        for ew in (8, 16, 32):
+            for attr in (None, "LittleEndian", "Null"):
+                lines = ["struct Ss:", "  0 [+%d]  UInt:%d[]  f" % (n, ew)]
+                if attr:
+                    lines.append('    [byte_order: "%s"]' % attr)
+                out.append(("byte-order array n=%d elem=%d attr=%s" % (n, ew, attr), "\n".join(lines) + "\n", attr == "LittleEndian" or ew == 8))
+    # a `bits` is read as one integer: the field holding it needs a constant size of at most 64 bits
+    for kind in ("anon", "named"):
+        for size, ok in (("1", True), ("8", True), ("9", False), ("16", False), ("n", False), ("k", True)):
+            head = LE + ("bits Bb:\n  0 [+8]  UInt  a\n" if kind == "named" else "")
+            body = "struct Ss:\n  0 [+1]  UInt  n\n  let k = 1\n"
+            if kind == "anon":
+                body += "  1 [+%s]  bits:\n    0 [+4]  UInt  a\n" % size
+            else:
+                body += "  1 [+%s]  Bb  b\n" % size
+            okk = ok and (kind == "anon" or size in ("1", "k"))
+            out.append(("bits-field-size %s %s" % (kind, size), head + body, okk if size not in ("8",) or kind == "anon" else False))
     # a $default applies to its own subtree only: neither to later siblings nor to imported modules
     out.append(("byte-order default-does-not-leak-to-later-struct",
                 'struct Aa:\n  [$default byte_order: "BigEndian"]\n  0 [+2]  UInt  x\nstruct Bb:\n  0 [+2]  UInt  y\n', False))
@@ -229,6 +261,7 @@ ATTRS = {
     "is_signed": ("true", "5", None, {("enum", False)}),
     "maximum_bits": ("32", "true", None, {("enum", False)}),
     "(cpp) namespace": ('"a::b"', "5", None, {("module", False)}),
+    "expected_back_ends": ('"cpp"', "5", None, {("module", False)}),
     "(cpp) enum_case": ('"kCamelCase"', "5", None, {("value", False), ("module", True), ("struct", True), ("bits", True), ("enum", True)}),
 }
 SCOPES = ["module", "struct", "bits", "enum", "value", "field", "virtual"]
